@@ -222,25 +222,97 @@ DoneSane == phase = "done" =>
 \* Each is a sequence of <<day, sec, utoff, isdst(0/1), abbr>>.
 Obs == JsonDeserialize(IOEnv.TZ_OBS)
 B2I(b) == IF b THEN 1 ELSE 0
-PiecesJ == [k \in 1..Len(Pieces) |-> <<Pieces[k][1], Pieces[k][2], Pieces[k][3], B2I(Pieces[k][4]), Pieces[k][5]>>]
+ToJ(P) == [k \in 1..Len(P) |-> <<P[k][1], P[k][2], P[k][3], B2I(P[k][4]), P[k][5]>>]
+PiecesJ == LET P == Pieces IN ToJ(P)
 AsTuple(s) == [k \in 1..Len(s) |-> <<s[k][1], s[k][2], s[k][3], s[k][4], s[k][5]>>]
 FirstDiff(a, b) == LET n == IF Len(a) < Len(b) THEN Len(a) ELSE Len(b)
                        D == {k \in 1..n : a[k] # b[k]}
                    IN IF D = {} THEN n + 1 ELSE CHOOSE k \in D : \A j \in D : k <= j
-Verdict(which, name) ==
+\* p: the spec's pieces (already evaluated once by the caller)
+Verdict(which, name, p) ==
    LET o == AsTuple(which[name])
-       p == PiecesJ
    IN IF o = p THEN [ok |-> TRUE, at |-> 0, spec |-> <<>>, obs |-> <<>>]
       ELSE LET k == FirstDiff(p, o)
            IN [ok |-> FALSE, at |-> k,
                spec |-> (IF k <= Len(p) THEN p[k] ELSE <<>>),
                obs |-> (IF k <= Len(o) THEN o[k] ELSE <<>>)]
 Has(which, name) == name \in DOMAIN which
+NoVerdict == [ok |-> TRUE, at |-> -1, spec |-> <<>>, obs |-> <<>>]
 Conforms == phase = "done" =>
    LET name == ZonesSeq[z].name
-   IN PrintT(ToJson([zone |-> name, pieces |-> PiecesJ, nstates |-> TLCGet("level"),
-                     impl |-> (IF Has(Obs.impl, name) THEN Verdict(Obs.impl, name) ELSE [ok |-> TRUE, at |-> -1, spec |-> <<>>, obs |-> <<>>]),
-                     zic  |-> (IF Has(Obs.zic, name) THEN Verdict(Obs.zic, name) ELSE [ok |-> TRUE, at |-> -1, spec |-> <<>>, obs |-> <<>>])]))
+       pj == PiecesJ
+   IN PrintT(ToJson([zone |-> name, pieces |-> pj, nstates |-> TLCGet("level"),
+                     impl |-> (IF Has(Obs.impl, name) THEN Verdict(Obs.impl, name, pj) ELSE NoVerdict),
+                     zic  |-> (IF Has(Obs.zic, name) THEN Verdict(Obs.zic, name, pj) ELSE NoVerdict)]))
 \* Export only (no observations): print the pieces of every zone
 PrintDone == phase = "done" => PrintT(ToJson([zone |-> ZonesSeq[z].name, pieces |-> PiecesJ]))
+
+SetToSeq2(S) == LET RECURSIVE F(_)
+                    F(T) == IF T = {} THEN <<>> ELSE LET m == CHOOSE x \in T : TRUE IN <<m>> \o F(T \ {m})
+                IN F(S)
+
+----------------------------------------------------------------------------
+\* Local (wall-clock) time resolution -- property C07.
+\* A wall time w is a pair <<day, sec>> counted like instants but read on the
+\* local clock.  Piece k of P is in force for instants [T(k), T(k+1)) and hence
+\* shows wall times [T(k)+Off(k), T(k+1)+Off(k)).
+\*   w shown by exactly one piece : that occurrence;
+\*   w shown by several pieces    : "later" = the last of them, "either" = any;
+\*   w shown by none (gap)        : resolved with the offset in force before the
+\*                                  gap, i.e. the wall time moved forward.
+\* A resolution is <<shift, off>>: result instant = w + shift, reported offset = off.
+NegInf == <<-1000000, 0>>
+PosInf == <<1000000, 0>>
+PT(P, k) == <<P[k][1], P[k][2]>>
+WStart(P, k) == IF k = 1 THEN NegInf ELSE AddS(PT(P, k), P[k][3])
+WEnd(P, k) == IF k = Len(P) THEN PosInf ELSE AddS(PT(P, k + 1), P[k][3])
+Cands(P, w) == {k \in 1..Len(P) : Le(WStart(P, k), w) /\ Lt(w, WEnd(P, k))}
+MaxOf(S) == CHOOSE m \in S : \A x \in S : x <= m
+OffAt(P, t) == P[MaxOf({k \in 1..Len(P) : k = 1 \/ Le(PT(P, k), t)})][3]
+Allowed(P, w, policy) ==
+   LET C == Cands(P, w) IN
+   IF C # {} THEN (IF policy = "later" THEN {<<0 - P[MaxOf(C)][3], P[MaxOf(C)][3]>>}
+                   ELSE {<<0 - P[k][3], P[k][3]>> : k \in C})
+   ELSE LET G == {k \in 1..(Len(P) - 1) : Le(WEnd(P, k), w) /\ Lt(w, WStart(P, k + 1))}
+        IN IF G = {} THEN {}
+           ELSE LET g == MaxOf(G) IN {<<0 - P[g][3], OffAt(P, AddS(w, 0 - P[g][3]))>>}
+\* model-level: resolution is total and normalised at every breakpoint of every zone
+WallBreaks(P) == {WStart(P, k) : k \in 2..Len(P)} \cup {WEnd(P, k) : k \in 1..(Len(P) - 1)}
+ResolveSane == phase = "done" =>
+   LET P == Pieces IN
+   \A w \in WallBreaks(P) : \A pol \in {"later", "either"} :
+      LET A == Allowed(P, w, pol) IN
+      /\ A # {}
+      /\ \A r \in A : OffAt(P, AddS(w, r[1])) = r[2]          \* normalised: the reported offset is the one in force at the result
+
+\* Conformance of recorded resolutions.  WallObs[name] is a sequence of windows
+\* [w0, w1, pieces]: pieces = <<day, sec, shift, off, err>> run-length encoded
+\* results of the real forComponents() for every wall minute of [w0, w1).
+WallObs == JsonDeserialize(IOEnv.TZ_WALL)
+WallPolicy == IOEnv.TZ_POLICY
+\* points at which a piece [a, b) with constant value must be checked: its start and every breakpoint inside
+CheckPoints(P, a, b) == {a} \cup {w \in WallBreaks(P) : Lt(a, w) /\ Lt(w, b)}
+WindowBad(P, win) ==
+   LET ps == win.pieces
+       n == Len(ps)
+   IN {<<j, w>> \in UNION {{<<j, w>> : w \in CheckPoints(P, <<ps[j][1], ps[j][2]>>,
+                                        IF j < n THEN <<ps[j + 1][1], ps[j + 1][2]>> ELSE <<win.w1[1], win.w1[2]>>)} : j \in 1..n} :
+          \/ ps[j][5] # 0
+          \/ <<ps[j][3], ps[j][4]>> \notin Allowed(P, w, WallPolicy)}
+WallConforms == phase = "done" =>
+   LET name == ZonesSeq[z].name
+       P == Pieces
+   IN IF name \notin DOMAIN WallObs THEN TRUE
+      ELSE LET W == WallObs[name]
+               bad == {wi \in 1..Len(W) : WindowBad(P, W[wi]) # {}}
+           IN PrintT(ToJson([wzone |-> name, nwin |-> Len(W), nbad |-> Cardinality(bad),
+                             first |-> (IF bad = {} THEN <<>>
+                                        ELSE LET wi == CHOOSE x \in bad : \A y \in bad : x <= y
+                                                 b == CHOOSE x \in WindowBad(P, W[wi]) : TRUE
+                                             IN <<wi, b[1], b[2][1], b[2][2],
+                                                  W[wi].pieces[b[1]][3], W[wi].pieces[b[1]][4], W[wi].pieces[b[1]][5]>>),
+                             want |-> (IF bad = {} THEN <<>>
+                                       ELSE LET wi == CHOOSE x \in bad : \A y \in bad : x <= y
+                                                b == CHOOSE x \in WindowBad(P, W[wi]) : TRUE
+                                            IN SetToSeq2(Allowed(P, b[2], WallPolicy)))]))
 =============================================================================
